@@ -90,7 +90,7 @@ PROPS = {
         "engines": [direct("C09"), storm("chain", arg="C09", sq=8, st=8)],
         "rule": "direct rig: each evaluation is one fabricated oracle account (kind x authenticity fault x publish time around the staleness second x confidence around the configured maximum x price/exponent over their integer ranges) passed to the real price adapter and compared with the exact reference; chain rig: doctored oracle accounts driven through borrow/withdraw/liquidate/bankruptcy/receivership; distinct = (kind, validity class, sign, bias percent, max age, offset from the staleness boundary)",
         "assumptions": COMMON_ASSUMPTIONS + ["venue exchange-rate variants (Kamino/Drift/Solend) are swept with a Pyth feed: adjusted price vs price x exact rate, stale / wrong / foreign-owned venue account; their Switchboard twins share the same venue code path and are not swept separately"],
-        "floors": {"quick": {"C09.venue_full_comparisons/drift-switchboard": 2000, "C09.venue_full_comparisons/kamino-pyth": 2000, "C09.venue_full_comparisons/solend-switchboard": 2000, "C09.usable/pyth": 1000, "C09.usable/switchboard": 1000, "C09.usable/staked": 300, "C09.must_reject/pyth/Stale": 300, "C09.must_reject/switchboard/Stale": 300, "C09.bias_pairs_checked": 5000, "C09.venue_prices_compared": 3000, "C09.venue/kamino/must_reject": 500, "C09.venue/drift/must_reject": 500, "C09.venue/solend/must_reject": 500}},
+        "floors": {"quick": {"C09.ages_at_integer_width_cliffs": 20000, "C09.venue_full_comparisons/drift-switchboard": 2000, "C09.venue_full_comparisons/kamino-pyth": 2000, "C09.venue_full_comparisons/solend-switchboard": 2000, "C09.usable/pyth": 1000, "C09.usable/switchboard": 1000, "C09.usable/staked": 300, "C09.must_reject/pyth/Stale": 300, "C09.must_reject/switchboard/Stale": 300, "C09.bias_pairs_checked": 5000, "C09.venue_prices_compared": 3000, "C09.venue/kamino/must_reject": 500, "C09.venue/drift/must_reject": 500, "C09.venue/solend/must_reject": 500}},
     },
     "C15": {
         "engines": [direct("C15", sq=4, st=8), storm("pause-chain", sq=4, st=4)],
